@@ -72,12 +72,42 @@ def _limits():
     return signal
 
 
+def ambient(mode, ctx):
+    """Settings of the process that are not the library's own but that its
+    behaviour may (wrongly) depend on.  0: nothing special.  1: the
+    application has logging switched on at DEBUG level (records go to a
+    handler that drops them).  2: the working directory is a build directory
+    holding files with the names of the library's bundled data files.
+    3: python -O (set by the runner: assertions compiled away)."""
+    if mode == 1:
+        import logging
+        root = logging.getLogger()
+        root.addHandler(logging.NullHandler())
+        root.setLevel(logging.DEBUG)
+        ctx.hit("shard_with_debug_logging")
+    elif mode == 2:
+        import tempfile
+        d = tempfile.mkdtemp(prefix="rv-cwd-", dir="/var/tmp")
+        for name in ("scamp.boot", "sark.struct", "rig", "boot"):
+            with open(os.path.join(d, name), "wb") as f:
+                f.write(b"not the file you are looking for\n" * 40)
+        os.chdir(d)
+        import atexit
+        import shutil
+        atexit.register(shutil.rmtree, d, True)
+        ctx.hit("shard_in_decoy_directory")
+    elif mode == 3:
+        if sys.flags.optimize:
+            ctx.hit("shard_under_python_O")
+
+
 def main(argv):
     spec = json.load(open(argv[1]))
     t0 = time.time()
     signal = _limits()
     result = dict(spec=spec, violations=[], errors=[], import_error=None)
     ctx = Ctx()
+    ambient(spec.get("ambient", 0), ctx)
     cov = None
     if os.environ.get("RV_COVERAGE"):       # development aid, see tools/
         import coverage
@@ -183,7 +213,8 @@ def main(argv):
                     continue
             for v in viols:
                 if len(result["violations"]) < 40:
-                    v.update(cls=cls, idx=idx, case_repr=repr(case))
+                    v.update(cls=cls, idx=idx, case_repr=repr(case),
+                             ambient=spec.get("ambient", 0))
                     result["violations"].append(v)
                 else:
                     result["violations_dropped"] = \
